@@ -78,6 +78,16 @@ def oracle(toks, line):
         if w == "tvol" and not fits(guest(fr), v):
             return line == "abort"       # the value could not even be stored in sandbox memory
         return line == f"ok {ccast(TYPES[to], v)}"      # the plain static_cast on the underlying value
+    if c == "scastp":
+        off = toks[3]
+        if off in ("null", "0"):
+            return line == "ok null"
+        d = {"derived>baseb": 8, "baseb>derived": -8, "derived>basea": 0}[toks[2]]
+        return line == f"ok in0:{int(off) + d}"          # what static_cast yields on the underlying pointer
+    if c == "opqalias":
+        v1 = int(toks[1])
+        import math
+        return line == f"ok {v1} {int(math.fmod(v1, 1000)) + 2}"
     if c in ("ccastn", "rcastn"):
         return line == ("ok null" if toks[1] in ("null", "0") else f"ok in0:{toks[1]}")
     if c in ("rcast", "ccast"):
@@ -169,7 +179,13 @@ def run(chk):
         for o in ["null", "4", "65532", str(rng.randrange(1, BLK))]:
             ops.append(f"ccast {w} {o}")
     for o in ["null", "4", "8", "4660", "65532", str(rng.randrange(1, BLK // 4) * 4)]:
-        ops += [f"ccastn {o}", f"rcastn {o}"]      # a backend with pointer-wide offsets as representation (ABI N), source in sandbox memory
+        ops += [f"ccastn {o}", f"rcastn {o}"]
+    for w in ("tainted", "tvol"):
+        for d in ("derived>baseb", "baseb>derived", "derived>basea"):
+            for o in ["null", "64", "4096", str(rng.randrange(8, BLK // 16) * 8)]:
+                ops.append(f"scastp {w} {d} {o}")
+    for v1, v2 in ((5, 9), (-7, 7), (123456789, 1), (rng.randrange(-10 ** 9, 10 ** 9), rng.randrange(-10 ** 9, 10 ** 9))):
+        ops.append(f"opqalias {v1} {v2}")      # a backend with pointer-wide offsets as representation (ABI N), source in sandbox memory
     for v in (0, 1, -1, 2147483647, -2147483648, 2147483648, -2147483649, rng.randrange(-10 ** 9, 10 ** 9)):
         ops.append(f"cbopq {v}")
     for a, r in ((3, 7), (0, 0), (-1, 1), (1000, -1000), (rng.randrange(-10 ** 6, 10 ** 6), rng.randrange(-10 ** 6, 10 ** 6))):
